@@ -23,6 +23,7 @@ type ShutdownOpts struct {
 	Clients  bool // schedule / cancel / save clients race with the shutdown
 	HTTP     bool
 	NoStore  bool // the runner is used without a store (no persistence): Shutdown must still return
+	NoFinisher bool // nothing lets tasks end during the shutdown: a forced shutdown has to cancel every running job
 	Watchdog time.Duration
 }
 
@@ -41,6 +42,9 @@ func RunShutdownCase(seed int64, o ShutdownOpts) *HistResult {
 	res := &HistResult{Seed: seed, Situations: map[string]map[string]struct{}{}, Evaluations: map[string]int{}}
 	if o.Watchdog == 0 {
 		o.Watchdog = 30 * time.Second
+		if o.Forced && o.NoFinisher {
+			o.Watchdog = 10 * time.Second
+		}
 	}
 	find := func(sig, format string, args ...any) {
 		res.Findings = append(res.Findings, Finding{Props: []string{"C11"}, Sig: sig, Detail: fmt.Sprintf(format, args...), Step: -1})
@@ -198,7 +202,7 @@ func RunShutdownCase(seed int64, o ShutdownOpts) *HistResult {
 			default:
 			}
 			w := sys.Gates.Waiting()
-			if len(w) > 0 {
+			if len(w) > 0 && !o.NoFinisher {
 				k := w[fr.Intn(len(w))]
 				sys.Release(k[0], k[1], core.Outcome{Kind: core.OutOK})
 			}
@@ -219,9 +223,30 @@ func RunShutdownCase(seed int64, o ShutdownOpts) *HistResult {
 	case sdErr = <-sdDone:
 	case <-time.After(o.Watchdog):
 		cancel()
-		res.Inconclusive = "watchdog: Shutdown did not return"
 		stopClients.Store(true)
 		close(finisherStop)
+		if o.Forced && o.NoFinisher {
+			// the deadline expired long ago and nothing lets tasks end: a job that is still executing and whose runner was
+			// never told to stop will never be canceled - this state is permanent, the watchdog only bounded the wait
+			told := map[string]bool{}
+			for _, e := range sys.Log.Events() {
+				if e.Kind == core.KCancelEnter {
+					told[e.Job] = true
+				}
+			}
+			v := sys.Snapshot(-1)
+			for i := range v.Jobs {
+				if j := &v.Jobs[i]; j.Executing() && !told[j.ID] {
+					find("C11:forced-shutdown-did-not-cancel-running-job", "forced shutdown (deadline long expired, tasks blocked): job %s of %s is still executing and its tasks were never told to stop; Shutdown does not return", j.ID[:8], j.Pipeline)
+				}
+			}
+		}
+		if len(res.Findings) == 0 {
+			res.Inconclusive = "watchdog: Shutdown did not return"
+		}
+		for _, k := range sys.Gates.Waiting() {
+			sys.Gates.Release(k[0], k[1], core.Outcome{Kind: core.OutOK})
+		}
 		return res
 	}
 	cancel()
@@ -243,6 +268,9 @@ func RunShutdownCase(seed int64, o ShutdownOpts) *HistResult {
 	wg.Wait()
 	close(finisherStop)
 	fwg.Wait()
+	for _, k := range sys.Gates.Waiting() {
+		sys.Gates.Release(k[0], k[1], core.Outcome{Kind: core.OutOK})
+	}
 	_ = sdErr
 	// let in-flight saves of the clients land, then look again: nothing may change after Shutdown returned
 	deadline := time.Now().Add(2 * time.Second)
@@ -404,7 +432,13 @@ func RunShutdownCase(seed int64, o ShutdownOpts) *HistResult {
 				}
 			}
 		} else if jb.running || jb.waiting {
-			res.sit("C11", fmt.Sprintf("forced: job running=%v", jb.running))
+			res.sit("C11", fmt.Sprintf("forced: job running=%v nofinisher=%v", jb.running, o.NoFinisher))
+			if o.NoFinisher && jb.running {
+				// its tasks cannot end by themselves: a forced shutdown cancels running jobs too
+				if !cancelEnter[jb.id] || !j.Canceled {
+					find("C11:forced-shutdown-did-not-cancel-running-job", "forced shutdown: job %s was running (tasks blocked) when the deadline expired; told to stop=%v, reported completed=%v canceled=%v", jb.id[:8], cancelEnter[jb.id], j.Completed, j.Canceled)
+				}
+			}
 		}
 	}
 	res.Events = len(evs)
